@@ -167,20 +167,58 @@ def parked_published_rule(F, R):
                     "between the PausedAtSafepoint and the Suspended arm; a thread parked unpublished is waited for forever by "
                     "the next global definition, assignment or collection on another thread")
     fn = F.one(r"^steel::steel_vm::vm::\{impl VmCore\}::safepoint_or_interrupt$")
-    parks = fn.call_blocks(r"\{impl VmCore\}::park_thread_while_paused$")
-    if not parks:
+    park_rx = r"\{impl VmCore\}::park_thread_while_paused$"
+    # the poll itself and the VmCore helpers it parks through (two calls deep)
+    hosts = [fn]
+    seen = {fn.name}
+    for _, cb in lib.deep_calls(F, fn, depth=2):
+        c = cb["callee"]
+        if c in F.fns and c not in seen and re.search(r"\{impl VmCore\}::", c) and not re.search(park_rx, c):
+            seen.add(c)
+            if F.fns[c].call_blocks(park_rx):
+                hosts.append(F.fns[c])
+    nparks = 0
+    published_hosts = set()
+    for g in hosts:
+        parks = g.call_blocks(park_rx)
+        stores = [i for i, b in g.calls() if re.search(r"AtomicCell<T>\}::store$", b["callee"]) and b["targs"] and
+                  "SteelThread" in b["targs"][0]]
+        dom = g.dominators()
+        allok = bool(parks)
+        for k, p in enumerate(sorted(parks)):
+            nparks += 1
+            before = [s_ for s_ in stores if s_ in dom[p] and p in g.reachable_from(g.succ(s_))]
+            # published in this arm: the nearest ThreadState switch target dominating the park also dominates the store
+            sws = [sb for sb in lib.enum_switches(g, "ThreadState") if sb in dom[p]]
+            in_arm = [s_ for s_ in before if any(sb in dom[s_] for sb in sws)] if sws else before
+            after = [s_ for s_ in stores if s_ in g.reachable_from(g.succ(p))]
+            ok = bool(in_arm) and bool(after)
+            allok = allok and ok
+            R.inst("C16.e", "%s / park #%d happens published" % (lib.split_path(g.name)[-1], k), ok,
+                   "%s parks the thread (line %s) without publishing it in Synchronizer.ctx first: a "
+                   "thread suspended with thread-suspend is never seen at a safepoint, so (define …) / (set! …) / a collection "
+                   "on any other thread hangs" % (g.short(), g.blocks[p].get("line")), g.loc(g.blocks[p].get("line")), sample=True)
+        if allok:
+            published_hosts.add(g.name)
+    if nparks == 0:
         raise CheckError("anchor lost: safepoint_or_interrupt no longer parks through park_thread_while_paused")
-    stores = [i for i, b in fn.calls() if re.search(r"AtomicCell<T>\}::store$", b["callee"]) and b["targs"] and
-              "SteelThread" in b["targs"][0]]
-    dom = fn.dominators()
-    for k, p in enumerate(sorted(parks)):
-        before = [s_ for s_ in stores if s_ in dom[p] and p in fn.reachable_from(fn.succ(s_))]
-        # published in this arm: the nearest ThreadState switch target dominating the park also dominates the store
-        sws = [sb for sb in lib.enum_switches(fn, "ThreadState") if sb in dom[p]]
-        in_arm = [s_ for s_ in before if any(sb in dom[s_] for sb in sws)] if sws else before
-        after = [s_ for s_ in stores if s_ in fn.reachable_from(fn.succ(p))]
-        R.inst("C16.e", "safepoint_or_interrupt / park #%d happens published" % k, bool(in_arm) and bool(after),
-               "VmCore::safepoint_or_interrupt parks the thread (line %s) without publishing it in Synchronizer.ctx first: a "
-               "thread suspended with thread-suspend is never seen at a safepoint, so (define …) / (set! …) / a collection "
-               "on any other thread hangs" % fn.blocks[p].get("line"), fn.loc(fn.blocks[p].get("line")), sample=True)
-    R.floor("C16.e", "parking sites in the poll", len(parks), 2)
+    # both pausing states park (sibling agreement between the arms)
+    tsw = lib.enum_switches(fn, "ThreadState")
+    if not tsw:
+        raise CheckError("anchor lost: safepoint_or_interrupt does not match on ThreadState")
+    narms = 0
+    for sb in tsw:
+        am = lib.arm_map(fn, sb)
+        for v in ("Suspended", "PausedAtSafepoint"):
+            if v not in am:
+                continue
+            narms += 1
+            others = {t for k_, t in am.items() if t != am[v]}
+            region = fn.reachable_from([am[v]], avoid=others)
+            parks_here = any(fn.blocks[x]["k"] == "call" and (re.search(park_rx, fn.blocks[x]["callee"]) or
+                                                             fn.blocks[x]["callee"] in published_hosts) for x in region)
+            R.inst("C16.e", "safepoint_or_interrupt / the %s arm parks published" % v, parks_here,
+                   "VmCore::safepoint_or_interrupt: the ThreadState::%s arm does not park the thread through a published "
+                   "park_thread_while_paused (directly or in a helper): the thread keeps running while it is meant to be "
+                   "paused, or parks invisibly" % v, fn.loc(fn.blocks[sb].get("line")), sample=True)
+    R.floor("C16.e", "pausing states handled in the poll", narms, 2)
